@@ -94,7 +94,9 @@ class ContractTable:
         if o.kind == "foreign":
             raise Raise(I.bi.make_exc("AttributeError", f"foreign object has no attribute {attr}"), I.where())
         if attr == "_variable_names":
-            return SSet(o.ghost["vars"])
+            if "vars_obj" not in o.ghost:
+                o.ghost["vars_obj"] = SSet(o.ghost["vars"], owner=o)       # the child's own set object
+            return o.ghost["vars_obj"]
         if attr == "_is_fully_reduced":
             return o.ghost["fully_reduced"]
         if attr == "_evaluation_failed":
